@@ -222,6 +222,24 @@ func c12Run(c *core.Ctx) {
 			handle(src, len(toks))
 		})
 	})
+	// two literals in one program: the first with escapes next to its closing delimiter, every fault
+	// (in particular every truncation inside the second) applied
+	for _, first := range []string{"`C:\\\\`", "`a\\\\\\\\`", "`\\``", "`a\\`b`", "'a\\\\'", "\"\\\\\"", "'\\''", "`\\\\\\``", "`x`"} {
+		for _, second := range []string{"`k`", "`p q`", "' - '", "`\n`"} {
+			for _, tmpl := range []string{"x = %1;\ny = %2;", "f(%1, %2)", "x = %1 + %2\nz = %2", "let r = [%1, a, %2]"} {
+				if !c.Next() {
+					continue
+				}
+				src := strings.ReplaceAll(strings.ReplaceAll(tmpl, "%1", first), "%2", second)
+				if _, _, ok := ref.GShape(src); !ok {
+					continue
+				}
+				c.Inc("valid_programs")
+				c.Inc("two_literal_programs")
+				handle(src, 20)
+			}
+		}
+	}
 	// statements whose last token spans several lines (multi-line template, continued string), followed
 	// by another statement on the literal's last line or the next one
 	for _, lit := range []string{"`one\ntwo`", "`\n`", "`a\n\n  b`", "'a\\\nb'", "`x`"} {
